@@ -11,16 +11,36 @@ From Coq Require Import List Arith Bool String.
 Import ListNotations.
 From PG Require Import Lib.Str Model.Conn Gen.Conn Gen.Opens Proofs.C20Facts Proofs.C20Tie.
 
+(* `connection ... pre acts`: pre is what ProtocolMultiplexer.getProtocol does
+   (constructors and canhandlerequest() of the protocol classes, header reading)
+   BEFORE the try statement of GopherRequestHandler.handle, acts the rest.  The
+   theorems hold for a classification phase that does not write to the connection
+   (`silent pre`); that the current code has no such write is
+   C20_classification_is_silent, read off the source on every run. *)
+Theorem C20_classification_is_silent : classify_write_sites = [].
+Proof. exact C20Tie.classification_is_silent. Qed.
+Print Assumptions C20_classification_is_silent.
+
 (* nothing propagates past server.GopherRequestHandler.handle *)
 Theorem C20_contained :
-  forall p fails c acts, fst (server_handle fails c server_spec (handle_spec p) acts) = Contained.
+  forall p fails c pre acts, silent pre = true ->
+  fst (connection fails c server_spec (handle_spec p) pre acts) = Contained.
 Proof. exact C20Tie.contained_now. Qed.
 Print Assumptions C20_contained.
+
+(* ... and why silence is needed: a write issued during classification that fails
+   leaves the connection handler *)
+Theorem C20_classification_write_escapes :
+  exists pre k, connection (window k None) EPIPE pinned_server (pinned_spec PCHttp) pre [] =
+                (Escaped (XIO EPIPE), St 1 0 0 []).
+Proof. exact C20Facts.classification_write_escapes. Qed.
+Print Assumptions C20_classification_write_escapes.
 
 (* every record logged after the connection failed carries the client address
    and the failure's own class, and there is at least one such record *)
 Theorem C20_logged_own_class :
-  forall p fails c acts o s, server_handle fails c server_spec (handle_spec p) acts = (o, s) ->
+  forall p fails c pre acts o s, silent pre = true ->
+  connection fails c server_spec (handle_spec p) pre acts = (o, s) ->
   (forall e, In e (log s) -> e_after e = true -> e_cls e = LIO c /\ e_addr e = true) /\
   (faulted fails s = true -> exists e, In e (log s) /\ e_after e = true).
 Proof. exact C20Tie.logged_now. Qed.
@@ -29,12 +49,12 @@ Print Assumptions C20_logged_own_class.
 (* the same two facts for every handler / server specification that satisfies the
    decidable conditions spec_ok / server_ok (what a rewrite has to preserve) *)
 Theorem C20_logged_own_class_general :
-  forall fails c sp h acts, server_ok sp = true -> spec_ok h = true ->
-  forall o s, server_handle fails c sp h acts = (o, s) ->
+  forall fails c sp h pre acts, server_ok sp = true -> spec_ok h = true -> silent pre = true ->
+  forall o s, connection fails c sp h pre acts = (o, s) ->
   o = Contained /\
   (forall e, In e (log s) -> e_after e = true -> e_cls e = LIO c /\ e_addr e = true) /\
   (faulted fails s = true -> exists e, In e (log s) /\ e_after e = true).
-Proof. exact C20Facts.logged_own_class. Qed.
+Proof. exact C20Facts.connection_logged. Qed.
 Print Assumptions C20_logged_own_class_general.
 
 (* pinned code: `e.args[1]` on a one-argument socket.timeout raises IndexError in
@@ -60,8 +80,8 @@ Print Assumptions C20_strerror_escape_refuted.
 (* every file opened by a with block is closed again, on every path, for every
    specification *)
 Theorem C20_files_closed :
-  forall fails c sp h acts, balanced acts -> depth (snd (server_handle fails c sp h acts)) = 0.
-Proof. exact C20Facts.files_closed. Qed.
+  forall fails c sp h pre acts, balanced (pre ++ acts) -> depth (snd (connection fails c sp h pre acts)) = 0.
+Proof. exact C20Facts.connection_files_closed. Qed.
 Print Assumptions C20_files_closed.
 
 (* the open call sites of pygopherd/ that are not with items are exactly the
